@@ -20,6 +20,7 @@ TRANSLATORS = [t1_modetables.translate]
 OBLIGATIONS = ["NiftyVerif.C13." + t for t in (
     "cov_append", "cov_map_mul", "scaling_cov", "scaling_inv_cov", "diag_cov", "sandwich_cov", "sandwich_inv_cov",
     "sum_cov", "adapter_sampler", "enabler_cov", "scaling_refuses_iff", "diag_refuses_iff", "sum_refuses_iff",
+    "blockdiag_cov", "scaling_multi_cov", "covC_uniform",
 )]
 RULE = ("covariance scripts (scaling, diagonal incl. partial-space, sandwich over random buns from the C01 generator, "
         "block-diagonal, sums, adjoint/inverse adapters, InversionEnabler, SamplingEnabler) with real or complex sampling "
@@ -182,7 +183,22 @@ def ok_bun(W, bun):
     return True
 
 
+FLIPS = [["adjoint"], ["inverse"], ["adjoint", "inverse"], ["inverse", "adjoint"], ["inverse", "inverse"],
+         ["adjoint", "adjoint"], ["adjoint", "inverse", "adjoint"], ["inverse", "adjoint", "inverse"],
+         ["adjoint", "inverse", "inverse"]]
+
+
 def cov(W, rng, d, dt, depth, mode="ok"):
+    """a covariance-like script, with probability 0.45 below a random combination of `.adjoint` / `.inverse` (every pending
+    transformation of diagonals, nested adapters around sandwiches / sums / block-diagonals, in both orders)"""
+    e = cov_core(W, rng, d, dt, depth, mode)
+    if rng.random() < 0.45:
+        for f in rng.choice(FLIPS):
+            e = dict(op=f, a=e, d=d, t=d)
+    return e
+
+
+def cov_core(W, rng, d, dt, depth, mode="ok"):
     """a script for a covariance-like operator on domain d with sampling dtype code dt"""
     if d in W.multi:
         kinds = ["block", "block", "scaling", "add"] if depth > 0 else ["block", "scaling"]
@@ -216,7 +232,9 @@ def cov(W, rng, d, dt, depth, mode="ok"):
         cheese = None if rng.random() < 0.2 else cov(W, rng, m, dt, depth - 1, sub_mode)
         return dict(op="sandwich", bun=bun, cheese=cheese, dt=dtx, d=d, t=d)
     if k in ("add", "sub"):
-        return dict(op=k, a=cov(W, rng, d, dt, depth - 1, sub_mode), b=cov(W, rng, d, dt, depth - 1, "ok"), d=d, t=d)
+        # now and then the two summands carry DIFFERENT sampling dtypes (merged scalings / diagonals must then lose theirs)
+        dtb = dt if rng.random() < 0.8 else rng.choice([0, 1, 2])
+        return dict(op=k, a=cov(W, rng, d, dt, depth - 1, sub_mode), b=cov(W, rng, d, dtb, depth - 1, "ok"), d=d, t=d)
     if k in ("adjoint", "inverse", "invEnabler"):
         inv_leaves = [lf for lf in W.leaves if lf.dom == d and lf.tgt == d and lf.cap == 15]
         if k == "inverse" and inv_leaves and rng.random() < 0.5:
@@ -232,11 +250,39 @@ def cov(W, rng, d, dt, depth, mode="ok"):
     raise AssertionError(k)
 
 
+def cov_mixed(W, rng, d):
+    """a sum of two to four scalings / diagonals whose sampling dtypes (none, real, complex) are drawn independently: merged
+    scalings keep a dtype only if all agree, a scalar is absorbed only into a diagonal of the same dtype, diagonals of different
+    dtypes stay separate"""
+    terms = []
+    for _ in range(rng.choice([2, 2, 3, 4])):
+        dt = rng.choice([0, 1, 1, 2, 2])
+        terms.append(cov_scaling(W, rng, d, dt, "ok") if rng.random() < 0.6 else cov_diag(W, rng, d, dt, "ok"))
+    e = terms[0]
+    for t in terms[1:]:
+        e = dict(op="add", a=e, b=t, d=d, t=d) if rng.random() < 0.7 else dict(op="add", a=t, b=e, d=d, t=d)
+    return e
+
+
 def gen_case(W, rng, depth, force_se=False):
     d = rng.randrange(len(W.sizes))
     dt = rng.choice([1, 1, 2])
     mode = "bad" if rng.random() < 0.25 else "ok"
     fi = rng.random() < 0.45
+    if not force_se and d not in W.multi and rng.random() < 0.08:
+        return dict(script=cov_mixed(W, rng, d), fi=rng.random() < 0.2, dt=dt, d=d)
+    if not force_se and d not in W.multi and rng.random() < 0.07:
+        # positive SEMI-definite variances (some exactly zero) below every combination of flips, drawn forward and from the inverse:
+        # which of the two is possible depends on the parity of the pending inversions, not on `from_inverse` alone
+        e = cov_diag(W, rng, d, dt, "ok")
+        zero = gj((0, 0))
+        if e["py"]["spaces"] is None:
+            k = rng.randrange(len(e["v"]))
+            e["v"][k] = zero
+            e["py"]["vals"][k] = zero
+        for f in rng.choice(FLIPS):
+            e = dict(op=f, a=e, d=d, t=d)
+        return dict(script=e, fi=rng.random() < 0.5, dt=dt, d=d)
     if force_se:
         d = rng.choice([0, 1, 4])
         fi = True
@@ -264,17 +310,34 @@ def uses_cg(case):
     return OW.has_op(case["script"], "invEnabler")
 
 
+def peel(e, fi):
+    """outer `.inverse` / `.adjoint` of a covariance script only select WHICH matrix is sampled: `X.inverse` drawn from its inverse
+    is `X` drawn forward (also when `X` is singular, e.g. a diagonal with zero variances)"""
+    adj = False
+    while e["op"] in ("inverse", "adjoint"):
+        if e["op"] == "inverse":
+            fi = not fi
+        else:
+            adj = not adj
+        e = e["a"]
+    return e, fi, adj
+
+
 def exact_cov(W, case):
     """the exact matrix the samples' covariance must equal, or None when it does not exist"""
+    fi = case["fi"]
     try:
         if case.get("se"):
             m = X.madd(OW.naive_matrix(W, case["se"]["lik"]), OW.naive_matrix(W, case["se"]["prior"]))
         else:
-            m = OW.naive_matrix(W, case["script"])
+            core, fi, adj = peel(case["script"], fi)
+            m = OW.naive_matrix(W, core)
+            if adj:
+                m = X.mconjT(m)
     except X.Singular:
-        return "vacuous"      # the expression itself denotes no matrix (it inverts a singular operator)
+        return "vacuous"      # the expression itself denotes no matrix (it inverts a singular operator below the top level)
     try:
-        return X.minv(m) if case["fi"] else m
+        return X.minv(m) if fi else m
     except X.Singular:
         return None
 
@@ -291,7 +354,9 @@ def plainly_representable(e, fi):
     if op == "block":
         return all(x is not None and plainly_representable(x, fi) for x in e["ents"])
     if op == "add":
-        return (not fi) and plainly_representable(e["a"], fi) and plainly_representable(e["b"], fi)
+        # summands with different sampling dtypes may be merged into one operator without a dtype, which then (rightly) refuses
+        dts = set(n.get("dt") for n in c01.walk(e) if n["op"] in ("scaling", "diag"))
+        return (not fi) and len(dts) == 1 and plainly_representable(e["a"], fi) and plainly_representable(e["b"], fi)
     return False
 
 
@@ -305,13 +370,22 @@ def oracle(case):
                 return None
             return (f"covariance expression cannot be built: {real['error']} at {real['site']}",
                     dict(kind="crash-build", error=real["error"], site=real["site"]))
-        if not case.get("se") and plainly_representable(case["script"], case["fi"]):
+        if not case.get("se") and plainly_representable(*peel(case["script"], case["fi"])[:2]):
             return (f"a plainly representable covariance refuses to sample: {real['error']} at {real['site']}",
                     dict(kind="refuses-representable", error=real["error"], top=case["script"]["op"]))
         return None   # refusing is always safe
     A, mean = real["A"], real["mean"]
     if isinstance(exact_cov(W, case), str):
         return None
+    if not case.get("se"):
+        try:
+            OW.naive_matrix(W, case["script"])
+        except X.Singular:
+            # the script inverts a singular operator at its top (`Scaling(0).inverse`, a diagonal with zero variances): dividing by
+            # zero is the caller's responsibility; only the well-defined reading (`X.inverse` drawn from its inverse = `X` drawn
+            # forward) with finite samples is judged
+            if exact_cov(W, case) is None or not (np.all(np.isfinite(A)) and np.all(np.isfinite(mean))):
+                return None
     if not np.all(np.isfinite(A)) or not np.all(np.isfinite(mean)):
         return ("sampler returns non-finite values instead of refusing", dict(kind="nonfinite", fi=case["fi"]))
     if np.max(np.abs(mean), initial=0.0) > tol:
@@ -323,6 +397,8 @@ def oracle(case):
     C = exact_cov(W, case)
     if isinstance(C, str):
         return None
+    if C is None and case.get("se"):
+        return None   # likelihood + prior is singular: the numerical (CG) inversion cannot notice; the property is about covariances
     if C is None:
         return ("sampler draws from an operator whose (inverse) covariance does not exist", dict(kind="no-covariance", fi=case["fi"]))
     Cn = X.mnumpy(C, len(mean), len(mean))
@@ -393,6 +469,10 @@ def compare_one(ctx, W, case, real, model):
     tol = 1e-6 if uses_cg(case) else 1e-9
     if model.get("error") == "ZeroDivisionError":
         ctx.stat("skipped-inverse-of-zero-scaling")
+        ctx.case(case, nontrivial=False)
+        return
+    if case.get("se") and exact_cov(W, case) is None:
+        ctx.stat("skipped-singular-numerical-inversion")
         ctx.case(case, nontrivial=False)
         return
     if isinstance(exact_cov(W, case), str):
